@@ -960,7 +960,8 @@ class BatcherCheck(Check):
                 'compare equal but print differently; (C10) impatient callers that give up before the hand-over; (C11) callers that ask '
                 'again right after being answered; batch functions that are a partial / a callable instance / return a bare '
                 '__aiter__-__anext__ object, and that schedule requests to their own batcher; (C11) collector runs inside the retention '
-                'window, case-insensitive str-subclass keys; distinct = distinct programs; ')
+                'window, case-insensitive str-subclass keys; (C09) fire-and-forget callers with collector runs, a batch function that waits '
+                'with a timeout for another key of its own batcher; distinct = distinct programs; ')
         return base + {
             'C04': 'non-trivial = a batch of >= 2 keys with a non-"value" behaviour or a non-forward order',
             'C09': 'non-trivial = a cancelled / timed-out caller whose batch or key was shared with a caller that was not cancelled',
